@@ -787,6 +787,10 @@ type Private interface {
 	touch()
 	reset(hard bool) error
 }
+
+type Fielded interface {
+	Local(f func() struct{ key int }, g struct{ Key, other int })
+}
 """
 flagsets("special-query", "adv/special", ["Query"], modes=("",))
 flagsets("special-source", "adv/special", ["Source"], modes=("",))
@@ -794,6 +798,7 @@ flagsets("special-ledger", "adv/special", ["Ledger"], modes=("",))
 flagsets("special-file", "adv/special", ["File"], modes=("",))
 flagsets("special-logger", "adv/special", ["Logger"], modes=("",))
 flagsets("special-private", "adv/special", ["Private"], modes=("",))
+flagsets("special-fielded", "adv/special", ["Fielded"], modes=("", "mocks"))
 
 
 # reset helpers next to methods that are spelled like them, in the same and in another interface of the run
